@@ -229,6 +229,16 @@ def _run_scenario(spec, res):
         conc = None
         if model is not None:
             ev = eng.evaluator(model)
+            # a path whose condition mentions uninterpreted cdf values (p < alpha forks) is only witnessed by data whose REAL
+            # cdf values satisfy it; the solver's model need not: such paths are verified (VCs) but not replayed
+            try:
+                real_ok = all(bool(ev(c)) for c in eng.pc)
+            except Exception:
+                real_ok = False
+            if not real_ok:
+                res.messages.append("path %d: solver witness does not satisfy the path condition under the real cdf; not replayed" % pi)
+                model = None
+        if model is not None:
             try:
                 conc = _concrete(eng, fn, params, model)
             except Exception as e:
